@@ -494,6 +494,13 @@ impl<T: Types> RaftLog<T> {
         &mut self,
         rec: &WALRecord<T>,
     ) -> Result<Segment, io::Error> {
+        // Validate before journalling or touching the index and cache: a
+        // rejected record must leave no trace, neither in memory nor on disk.
+        // A `State` record is never rejected.
+        if !matches!(rec, WALRecord::State(_)) {
+            self.state_machine.log_state.clone().apply(rec)?;
+        }
+
         WAL::append(&mut self.wal, rec)?;
         StateMachine::apply(
             &mut self.state_machine,
